@@ -552,8 +552,8 @@ func (c *compiler) evalIdentifier(node *ast.Identifier) (interface{}, error) {
 		return f.Interface(), nil
 	}
 
-	if c.ctx.Has(node.Value) {
-		return c.ctx.Value(node.Value), nil
+	if key := identifierKey(node); c.ctx.Has(key) {
+		return c.ctx.Value(key), nil
 	}
 
 	if node.Value == "nil" {
@@ -1288,6 +1288,16 @@ func (c *compiler) evalIndexCallee(rv reflect.Value, node *ast.IndexExpression) 
 	return vvs, nil
 }
 
+// identifierKey is the name an identifier is looked up under. A name the
+// parser made up is kept apart from the names a template can use, so that
+// people[0].Say(people[1].Name) still finds people inside the arguments.
+func identifierKey(node *ast.Identifier) string {
+	if node.Synthetic {
+		return "(" + node.Value + ")"
+	}
+	return node.Value
+}
+
 // chainRootName finds the name of the identifier a path expression starts at.
 func chainRootName(exp ast.Expression) (string, bool) {
 	switch t := exp.(type) {
@@ -1295,7 +1305,7 @@ func chainRootName(exp ast.Expression) (string, bool) {
 		for t.Callee != nil {
 			t = t.Callee
 		}
-		return t.Value, true
+		return identifierKey(t), true
 	case *ast.IndexExpression:
 		return chainRootName(t.Left)
 	case *ast.CallExpression:
